@@ -212,6 +212,12 @@ func (t *Table) GetNextHop(target boson.Address, skips ...boson.Address) (next [
 		// remove duplication next
 		list := make(map[string]boson.Address, len(routes))
 		for _, v := range routes {
+			// routes are persisted per target and are not rewritten when a path is
+			// deleted or expires, so after a restart a route may refer to a path that
+			// is gone; such a route must not offer its next hop.
+			if _, has := t.paths.Load(v.PathKey); !has {
+				continue
+			}
 			if !v.Neighbor.MemberOf(skips) {
 				list[v.Neighbor.String()] = v.Neighbor
 			}
